@@ -61,7 +61,8 @@ class Conv:
             return ("slice", t.name, t.slice.start, t.slice.stop, t.slice.step, t.dtype)
         cls = get_origin(type(t)) or type(t)
         from funsor.terms import Finitary
-        if cls in (Unary, Binary, Reduce, Subs, Contraction, Stack, Cat, Lambda, Align, Independent, Finitary):
+        from funsor.constant import Constant
+        if cls in (Unary, Binary, Reduce, Subs, Contraction, Stack, Cat, Lambda, Align, Independent, Finitary, Constant):
             return self.app(cls, t._ast_values)
         raise NoSemantics("term class %s" % cls.__name__)
 
@@ -135,10 +136,19 @@ class Conv:
             if n == "einsum":
                 return ("einsum", op.defaults["equation"], tuple(self.term(x) for x in fargs))
             raise NoSemantics("finitary op %s" % n)
+        from funsor.constant import Constant
+        if cls is Constant:
+            cin, arg = args
+            return ("constant", tuple((k, self._bsize(d)) for k, d in cin), self.term(arg))
         if cls is Independent:
             fn, reals_var, bint_var, diag_var = args
             return ("independent", self.term(fn), reals_var, bint_var, diag_var)
         raise NoSemantics("redex class %s" % getattr(cls, "__name__", cls))
+
+    def _bsize(self, d):
+        if not isinstance(d.dtype, int) or d.shape != ():
+            raise NoSemantics("constant with a real input")
+        return d.dtype
 
     def _size(self, v):
         if not isinstance(v.output.dtype, int) or v.output.shape != ():
